@@ -18,6 +18,7 @@ type CaseFL struct {
 	Tail B      `json:"tail"` // bytes after the line (enough for the 14-byte look-ahead)
 	Msg  bool   `json:"msg"`  // go through ParseSIPMsg (+Method()) instead of ParseFLine
 	Cut  int    `json:"cut"`  // > 0: feed the first Cut bytes first, then everything (the decomposition must not depend on it)
+	Used B      `json:"used"` // non-empty: the object first parses this other line and is Reset() (ParseFLine entry)
 }
 
 func (c CaseFL) line() []byte {
@@ -167,6 +168,10 @@ func evalFL(c CaseFL) Result {
 		fl = &msg.FL
 	} else {
 		fl = &sipsp.PFLine{}
+		if len(c.Used) > 0 {
+			sipsp.ParseFLine(append(append([]byte{}, c.Used...), "\r\nVia: SIP/2.0/UDP h\r\n\r\n"...), 0, fl)
+			fl.Reset()
+		}
 		if c.Cut > 0 && c.Cut < len(buf) {
 			if o1, e1 := sipsp.ParseFLine(buf[:c.Cut:c.Cut], 0, fl); e1 == sipsp.ErrHdrMoreBytes {
 				start = o1
@@ -278,6 +283,9 @@ func genCaseFL(t *rapid.T) CaseFL {
 	c := CaseFL{FL: genFLine(t), Tail: flTail(t), Msg: rapid.Bool().Draw(t, "viamsg")}
 	if rapid.IntRange(0, 2).Draw(t, "chunked") == 0 {
 		c.Cut = rapid.IntRange(1, 40).Draw(t, "cut")
+	}
+	if rapid.IntRange(0, 3).Draw(t, "used") == 0 {
+		c.Used = B(pick(t, "usedline", "SIP/2.0 486 Busy Here", "REGISTER sip:registrar.example SIP/2.0", "sip/2.0 000 ", "X y"))
 	}
 	if rapid.IntRange(0, 3).Draw(t, "miss") == 0 {
 		if c.FL.Req {
